@@ -184,6 +184,13 @@ def run(chk: Check, tier: str):
         machinery_failure(f"MC_Revision: {res.violated} violated by the specification itself")
     tlc.require_ok(res, "MC_Revision")
     chk.add_tlc("MC_Revision", res, "all add/remove sequences over 3 candidate conditionals")
+    # unbounded companion: CachesExact is inductive under Add / Remove for any worlds, indices and conditionals (TLAPS)
+    import tlaps
+
+    pr = tlaps.prove("RevisionProof")
+    chk.cov["tlaps_RevisionProof"] = {k: pr[k] for k in ("available", "proved", "refuted", "obligations", "wall_s")}
+    if pr["refuted"]:
+        machinery_failure("tlapm rejects an obligation of spec/RevisionProof.tla:\n" + pr["out"])
     scen = [gen_scenario(rng, tier) for _ in range(260 if tier == "quick" else 20000)]
     # pinned: the case recorded in known_findings.json (the scenario of unittests/test_c_revision_fixed_gamma.py)
     scen.append({"sig": ["a", "b"], "prior": [0, 0, 0, 0], "cands": [(M.V("a"), M.V("b")), (M.Not(M.V("a")), M.V("b"))],
